@@ -33,6 +33,19 @@ NANO_PUBLIC void   set_max_threads(size_t threads);
 NANO_PUBLIC int64_t default_seed();
 NANO_PUBLIC void    set_default_seed(int64_t seed);
 
+/// \brief observer of a library object at a named point of its life (e.g. the cutting plane model after every update).
+using object_sink_t = void (*)(const char* event, const void* object);
+
+NANO_PUBLIC std::atomic<object_sink_t>& object_sink();
+
+inline void emit_object(const char* event, const void* object)
+{
+    if (auto* const fsink = object_sink().load(std::memory_order_acquire); fsink != nullptr)
+    {
+        fsink(event, object);
+    }
+}
+
 inline void emit(const char* event, int64_t a = -1, int64_t b = -1)
 {
     if (auto* const fsink = sink().load(std::memory_order_acquire); fsink != nullptr)
@@ -44,7 +57,9 @@ inline void emit(const char* event, int64_t a = -1, int64_t b = -1)
 
     #define NANO_VERIF_EMIT(...) ::nano::verif::emit(__VA_ARGS__)
     #define NANO_VERIF_YIELD(id) ::nano::verif::yield_point(id)
+    #define NANO_VERIF_OBJECT(event, object) ::nano::verif::emit_object(event, object)
 #else
     #define NANO_VERIF_EMIT(...)
     #define NANO_VERIF_YIELD(id)
+    #define NANO_VERIF_OBJECT(event, object)
 #endif
